@@ -19,7 +19,9 @@ def genFor (prop tier : String) (seed : Nat) : Except String (Array Case) :=
   match prop with
   | "C01" => pure (genC01Cases tier seed ++ pairwiseSimpleCases "c01" ++ exhaustiveTreeCases "c01" ++ sharedGroupWitnessCases "c01" ++ genComboCases tier seed)
   | "COMBO" => pure (genComboCases tier seed)
-  | "C02" => pure (genC02Cases tier seed ++ pairwiseNestedCases "c02" ++ nestedOpPerTypeCases "c02" ++ genComboBraceCases tier seed)
+  | "C02" => pure (genC02Cases tier seed ++ pairwiseNestedCases "c02" ++ nestedOpPerTypeCases "c02" ++ genComboBraceCases tier seed
+                    -- nested statements and combinations on every nesting-capable symbol, as the visual export shows them
+                    ++ perSymbolVisCases "c02")
   | "C03" =>
     let base := genC03Cases tier seed
     -- every fifth statement is also exported as a table (model on the implementation's parse,
@@ -53,6 +55,7 @@ def judgeFor (prop : String) : Except String (Case → ObsLine → Verdict) :=
                             else if c.tag = "shared-groups" then judgeSharedGroups c o else judgeParse c o)
   | "COMBO" => pure judgeCombo
   | "C02" => pure (fun c o => if c.op = "combo" then judgeCombo c o
+                            else if c.op = "vis" then judgeVis true c o
                             else if c.tag = "operator-per-type" then judgeNestedOps c o else judgeParse c o)
   | "C03" => pure (fun c o => if c.op = "tab" then judgeTabWith ["C05", "C06"] c o else judgeParse c o)
   | "C04" => pure (judgeTabWith ["C04"])
